@@ -15,7 +15,7 @@ import weave as weave_mod  # noqa: E402
 
 REPO = os.environ.get("VERIF_REPO", "/repo")
 BUILD = os.path.join(VERIF, "build")
-EVID = os.path.join(VERIF, "evidence")
+EVID = os.path.join(VERIF, "evidence") if os.environ.get("VERIF_REPO", "/repo") == "/repo" else os.path.join(BUILD, "scratch-evidence")
 FINDINGS = os.path.join(VERIF, "known-findings.json")
 
 PROPS = [f"C{n:02d}" for n in range(1, 21)]
@@ -597,10 +597,43 @@ def write_evidence(pid, tier, res, relevant, viol, known, wall):
     json.dump(ev, open(os.path.join(EVID, pid + ".json"), "w"), indent=1)
 
 
+def selftest(pid):
+    """thorough tier: every stored seeded change that this property's check is recorded to catch is applied
+    to a scratch copy of the repository (outside /repo and /verif, removed afterwards) and must be reported"""
+    import shutil, tempfile
+    missed = []
+    for d in sorted(glob.glob(os.path.join(VERIF, "seeded", "*"))):
+        try:
+            meta = json.load(open(os.path.join(d, "meta.json")))
+        except Exception:
+            continue
+        if pid not in meta.get("caught_by", []):
+            continue
+        scratch = tempfile.mkdtemp(prefix="verif_seed_")
+        try:
+            for f in ("src", "Cargo.toml", "Cargo.lock"):
+                src = os.path.join("/repo", f)
+                (shutil.copytree if os.path.isdir(src) else shutil.copy)(src, os.path.join(scratch, f))
+            ap = sh(["git", "apply", os.path.join(d, "patch.diff")], cwd=scratch)
+            if ap.returncode != 0:
+                print(f"  seed {os.path.basename(d)}: patch does not apply to the current tree (skipped)")
+                continue
+            env = dict(os.environ, VERIF_REPO=scratch, VERIF_TIER="quick")
+            r = subprocess.run([sys.executable, os.path.abspath(__file__), "--property", pid, "--tier", "quick", "--no-evidence"], capture_output=True, text=True, env=env)
+            ok = r.returncode == 1 and "VIOLATION" in r.stdout
+            print(f"  seed {os.path.basename(d)}: {'reported' if ok else 'MISSED (exit %d)' % r.returncode}")
+            if not ok:
+                missed.append(os.path.basename(d))
+        finally:
+            shutil.rmtree(scratch, ignore_errors=True)
+    return missed
+
+
 def main():
     ap = argparse.ArgumentParser()
     ap.add_argument("--property", required=True)
     ap.add_argument("--tier", default=os.environ.get("VERIF_TIER", "quick"))
+    ap.add_argument("--no-evidence", action="store_true", help="(self-test on a scratch copy) do not rewrite the evidence and replay files")
     a = ap.parse_args()
     t0 = time.time()
     res = get_results(a.tier)
@@ -631,7 +664,8 @@ def main():
     if not relevant:
         print(f"no unit carries obligations for {a.property}", file=sys.stderr)
         sys.exit(2)
-    write_evidence(a.property, a.tier, res, relevant, viol, known, time.time() - t0)
+    if not a.no_evidence:
+        write_evidence(a.property, a.tier, res, relevant, viol, known, time.time() - t0)
     if a.tier == "thorough" and known and build_replay():
         for f in {id(f): f for (_, _, f) in known}.values():
             r = f.get("replay")
@@ -679,6 +713,11 @@ def main():
                       open(path, "w"), indent=1)
             print(f"VIOLATION property={a.property} replay={path}" + ("" if cex else " no-failing-input-found"))
         sys.exit(1)
+    if a.tier == "thorough" and REPO == "/repo":
+        missed = selftest(a.property)
+        if missed:
+            print(f"UNDECIDED: the machinery no longer reports seeded change(s) {missed}", file=sys.stderr)
+            sys.exit(2)
     n = sum(1 for u in relevant)
     print(f"OK property={a.property} tier={a.tier} units={n} cached={res.get('cached')} wall={time.time()-t0:.1f}s")
     sys.exit(0)
